@@ -52,7 +52,13 @@ func (t *Task) start() {
 				case pathEnd:
 					p.pendingEnd = &x
 				case *goPanic:
-					p.pendingEnd = &pathEnd{"panic", x.site + ": " + x.desc + fmt.Sprintf(" (in goroutine %d)", t.id)}
+					if p.taskPanicLabel != "" {
+						// the harness declared that a crash of any goroutine violates this assertion
+						p.recordTaskPanic(x, t.id)
+						p.pendingEnd = &pathEnd{"done", "goroutine panic recorded as violation of " + p.taskPanicLabel}
+					} else {
+						p.pendingEnd = &pathEnd{"panic", x.site + ": " + x.desc + fmt.Sprintf(" (in goroutine %d)", t.id)}
+					}
 				default:
 					p.pendingCrash = r
 				}
@@ -561,4 +567,37 @@ func (p *Path) pendingTimers() int {
 		}
 	}
 	return n
+}
+
+// recordTaskPanic turns an unrecovered panic of a goroutine into a violation of
+// the label the harness registered with vOnTaskPanic.
+func (p *Path) recordTaskPanic(gp *goPanic, id int) {
+	label := p.taskPanicLabel
+	if pf := p.W.Opts.AssertPrefix; pf != "" && (len(label) < len(pf) || label[:len(pf)] != pf) {
+		return
+	}
+	if p.covered == nil {
+		p.covered = map[string]bool{}
+	}
+	p.covered[label] = true
+	if p.W.Opts.Concrete != nil {
+		p.violations = append(p.violations, Violation{Label: label})
+		return
+	}
+	if p.pos < len(p.dec) {
+		return
+	}
+	m := func() (m Model) {
+		defer func() {
+			if r := recover(); r != nil {
+				m = nil
+			}
+		}()
+		return p.getModel()
+	}()
+	if m == nil {
+		return
+	}
+	tp := p.tapeFor(m, label)
+	p.violations = append(p.violations, Violation{Label: label, Model: m, Tape: tp, Site: gp.site, Msg: gp.desc + fmt.Sprintf(" (goroutine %d)", id), CrashOK: true})
 }
